@@ -339,9 +339,12 @@ def gen_pattern(rng):
     if seg_kw.get("min_block_size") == 2 and hh * ww % 2 == 1 and seg_kw.get("max_num_blocks"):
         seg_kw = {}
     with_clues = rng.random() < 0.5
+    if rng.random() < 0.25 and hh >= 2 and ww >= 2:
+        # a board with holes: the rows as initial blocks, the last cell of every other row left uncovered
+        seg_kw = {"initial_blocks": [[(y, x) for x in range(ww - (1 if y % 2 else 0))] for y in range(hh)]}
 
     def fac2():
-        sb = SegmentationBuilder2D(hh, ww, **seg_kw)
+        sb = SegmentationBuilder2D(hh, ww, **copy.deepcopy(seg_kw))
         if with_clues:
             return (sb, [Choice([-1, 0, 1, 2], -1) for _ in range(hh)], [Choice([-1, 0, 1], -1) for _ in range(ww)])
         return sb
